@@ -115,7 +115,7 @@ pub fn run(c: &Case) -> Verdict {
     let mut final_pool: Vec<T> = Vec::new();
     let nsteps = c.h.steps.len();
 
-    let res = run_history(fam, &c.h, |k, st, out, pool, changed| {
+    let res = run_history(fam, &c.h, |k, st, out, pool, changed, produced| {
         if *out == Outcome::Panic {
             panicked = true;
             return Ok(());
@@ -123,13 +123,31 @@ pub fn run(c: &Case) -> Verdict {
         if k + 1 == nsteps {
             final_pool = pool.iter().map(|t| t.dup()).collect();
         }
+        let ctx = format!("after step {} ({:?} a={} b={} dst={}) on {}", k, st.op, st.a, st.b, st.dst, fam.label());
         let d = match changed {
             Some(d) => d,
-            None => return Ok(()),
+            None => {
+                // a table of another size was produced (not stored): it must still be well formed
+                // and equal to a from_blocks twin of the function it denotes
+                if let Some(x) = produced {
+                    if let Err(e) = well_formed(x) {
+                        fail_info = Some(("malformed".into(), format!("{}: produced table of {} variables: {}", ctx, x.n(), e)));
+                        return Err("stop".into());
+                    }
+                    if let Ok(mx) = guard(|| to_model(x)) {
+                        if let Ok(twin) = guard(|| x.fam().get().from_blocks(mx.n, &mx.w)) {
+                            if let Ok(Err((sig, m))) = guard(|| check_pair(x, &mx, twin.as_ref(), &mx, "produced table vs. from_blocks twin of the same function")) {
+                                fail_info = Some((sig, format!("{}: {}", ctx, m)));
+                                return Err("stop".into());
+                            }
+                        }
+                    }
+                }
+                return Ok(());
+            }
         };
         wrote += 1;
         let x = pool[d].as_ref();
-        let ctx = format!("after step {} ({:?} a={} b={} dst={}) on {}", k, st.op, st.a, st.b, st.dst, fam.label());
         // representation invariant
         if let Err(e) = well_formed(x) {
             fail_info = Some(("malformed".into(), format!("{}: {}", ctx, e)));
